@@ -535,6 +535,71 @@ def retention_case(name):
 
 
 # ------------------------------------------------------------------------------------------------
+# (5) a process tensor whose tensors are replaced answers with its current tensors
+
+def pt_update_case(args):
+    kind, file_backed, order = args
+    from mc import ancilla as A, refmodel as R
+    d, e, n = 2, 2, 3
+    sigma = np.diag([0.7, 0.3]).astype(complex)
+    v = M.generic_unitary(2, 4) if kind.endswith("T") else None
+
+    def tensors(tag):
+        if kind.startswith("rank4"):
+            ks = [[R.random_free_unitary(d * e, tag + k)] for k in range(n)]
+            return A.build_pt(d, e, sigma, ks, dt=DT, basis_v=v)
+        us = [[R.random_free_unitary(e, tag + 10 * k + t) for t in range(d)] for k in range(n)]
+        return A.build_pt(d, e, sigma, None, dt=DT, rank3_us=us, basis_v=v)
+    p1, p2 = tensors(400), tensors(500)
+    sysm = oq.System(0.5 * M.SX + 0.2 * M.SZ)
+
+    def consume(pt):
+        return np.array(oq.compute_dynamics(sysm, M.RHO_GEN2, process_tensor=pt, progress_type="silent").states).ravel()
+    fresh2 = consume(p2)
+    if file_backed:
+        from oqupy.process_tensor import FileProcessTensor
+        obj = FileProcessTensor(mode="write", filename=None, hilbert_space_dimension=d, dt=DT,
+                                transform_in=p1.transform_in, transform_out=p1.transform_out)
+        for k in range(n):
+            obj.set_mpo_tensor(k, p1.get_mpo_tensor(k, transformed=False))
+        for k in range(n + 1):
+            obj.set_cap_tensor(k, p1.get_cap_tensor(k))
+    else:
+        obj = p1
+    vio = []
+    try:
+        for op in order:
+            if op == "use":
+                consume(obj)
+            elif op == "get":
+                [obj.get_mpo_tensor(k) for k in range(n)]
+                [obj.get_cap_tensor(k) for k in range(n + 1)]
+                obj.get_bond_dimensions()
+        for k in range(n):
+            obj.set_mpo_tensor(k, p2.get_mpo_tensor(k, transformed=False))
+        for k in range(n + 1):
+            obj.set_cap_tensor(k, p2.get_cap_tensor(k))
+        after = consume(obj)
+        if np.abs(after - fresh2).max() > 1e-10:
+            vio.append((f"pt-update|{kind}|{'file' if file_backed else 'simple'}|after-{'+'.join(order) or 'nothing'}|uses-stale-tensors",
+                        f"{kind} file={file_backed}: after {order} and replacing all tensors the dynamics differ from a fresh "
+                        f"process tensor by {np.abs(after - fresh2).max():.2e}"))
+        for k in range(n):
+            if not np.allclose(obj.get_mpo_tensor(k), p2.get_mpo_tensor(k), atol=1e-13):
+                vio.append((f"pt-update|{kind}|{'file' if file_backed else 'simple'}|after-{'+'.join(order) or 'nothing'}|get_mpo_tensor-stale", f"step {k}"))
+                break
+    except Exception as ex:  # noqa
+        vio.append((f"pt-update|{kind}|exception:{type(ex).__name__}", str(ex)[:150]))
+    finally:
+        if file_backed:
+            try:
+                obj.remove()
+            except Exception:  # noqa
+                pass
+    return {"vio": vio, "n": 1}
+
+
+# ------------------------------------------------------------------------------------------------
 # (3) reuse of shared objects in every order
 
 def reuse_case(perm):
@@ -616,6 +681,13 @@ def run(tier, seed):
         nl += r["n"]
         for cls, what in r["vio"]:
             rep.add(Violation(cls, what, {"part": "retention", "api": nm}))
+    ujobs = [(k, f, o) for k in ("rank4", "rank4T", "rank3", "rank3T") for f in (False, True)
+             for o in ((), ("use",), ("get",), ("get", "use"), ("use", "get"))]
+    ur = pmap(pt_update_case, ujobs, seed=seed)
+    for j, r in zip(ujobs, ur):
+        nl += r["n"]
+        for cls, what in r["vio"]:
+            rep.add(Violation(cls, what, {"part": "ptupdate", "args": [j[0], j[1], list(j[2])]}))
     comps = ["tempo", "tempo-td", "pttempo", "dynamics", "correlations"]
     perms = list(itertools.permutations(comps)) if tier == "thorough" else \
         [p for p in itertools.permutations(comps) if p[0] in ("tempo", "pttempo", "dynamics")][::2]
@@ -635,7 +707,8 @@ def run(tier, seed):
                 "built with); every history over {E,B,R,T,S1,S2,X} up to the depth that ends in an observation is executed on real "
                 "objects (CustomCorrelations: depth <= 4 and at most two evaluations); oracle = same observation on freshly "
                 "constructed objects; layouts: 19 array arguments x up to 7 layouts; retention: 16 APIs that keep a caller array, the caller "
-                "overwrites its array in place after the call and the object must answer as before; reuse: permutations of 5 computations on shared "
+                "overwrites its array in place after the call and the object must answer as before; process-tensor update: 4 kinds x "
+                "{in-memory, file-backed} x 5 use/get prefixes, then all tensors are replaced and the object must behave like a fresh one; reuse: permutations of 5 computations on shared "
                 "objects (quick: 36 of 120 orders, thorough: all)",
         "samples": [{"kind": jobs[(17 * seed) % len(jobs)][0], "history": list(jobs[(17 * seed) % len(jobs)][1])},
                     {"layout": ["AugmentedMPS.gamma(rank2)", "T-view"]}, {"reuse": list(perms[0])}],
@@ -653,6 +726,10 @@ def replay(rp):
     if rp["part"] == "layout":
         r = layout_case(rp["api"])
         return {"obs": [v[:2] for v in r["vio"]], "violation": r["vio"][0][0] if r["vio"] else None}
+    if rp["part"] == "ptupdate":
+        a = rp["args"]
+        r = pt_update_case((a[0], a[1], tuple(a[2])))
+        return {"obs": r["vio"], "violation": r["vio"][0][0] if r["vio"] else None}
     if rp["part"] == "retention":
         r = retention_case(rp["api"])
         return {"obs": r["vio"], "violation": r["vio"][0][0] if r["vio"] else None}
